@@ -71,6 +71,15 @@ def handle (args : List String) : String :=
       let r := walkaboutG (fun _ => []) (dactOf ds) ws t
       "ok " ++ " ".intercalate (r.1.map showEvent) ++ " | " ++ showExc r.2
     | _, _, _ => "bad-op"
+  | "walkaboutdold" :: exts :: dacts :: toks =>
+    -- the same before 97d973e (historical)
+    match (if exts == "-" then some [] else exts.toList.mapM parseWhen),
+          (if dacts == "-" then some [] else dacts.toList.mapM (fun c => parseAct c.toString)),
+          parseTree (toks.length + 1) toks with
+    | some ws, some ds, some (t, []) =>
+      let r := walkaboutGOld (fun _ => []) (dactOf ds) ws t
+      "ok " ++ " ".intercalate (r.1.map showEvent) ++ " | " ++ showExc r.2
+    | _, _, _ => "bad-op"
   | "bstack" :: scopeTok :: skipTok :: inlTok :: exts :: toks =>
     -- the real builder: full trace with extensions and inline-visited nodes, and the scope stack
     match Proto.natList scopeTok, Proto.natList skipTok, parseInl inlTok,
